@@ -169,6 +169,9 @@ def apply_pairs(pre, pairs):
 
 
 class C05(Oracle):
+    # reach probes that must not be stuck at zero (else the workload is not reaching what
+    # the design says it reaches): the check then exits 2
+    required_probes = {"quick": ['second_different_formal_value_refused', 'same_formal_value_readded_noop', 'literal_entry_path', 'time_as_iso_string', 'set_time_iso_string', 'creation_conflict_refused', 'reference_as_record_object', 'subtype_factory'], "thorough": ['second_different_formal_value_refused', 'same_formal_value_readded_noop', 'literal_entry_path', 'time_as_iso_string', 'set_time_iso_string', 'creation_conflict_refused', 'reference_as_record_object', 'subtype_factory']}
     prop = "C05"
 
     def swarm(self, rng):
